@@ -7,31 +7,35 @@
 EXTENDS Util
 
 CONSTANTS L, UsesGlobal, UsesHistory        \* as-is switches: a run reading the global generator / left-over state
-VARIABLES g, ran, reuse, hist, runs
-rvars == <<g, ran, reuse, hist, runs>>
+VARIABLES g, ran, reuse, hist, runs, plugged
+rvars == <<g, ran, reuse, hist, runs, plugged>>
 
 Cfgs == 1..2
 Seeds == 1..2
 \* what a run produces: intended = a function of (cfg, seed); the switches add forbidden dependencies
-TraceOf(c, s) == <<c, s, IF UsesGlobal THEN g ELSE 0, IF UsesHistory THEN ran ELSE 0>>
-PertOf(c, s) == <<s, IF UsesGlobal THEN g ELSE 0>>
+\* plugged: a prioritised plug-in for the configured method names has been registered (on the re-used manager and on every
+\* manager created afterwards) - a legitimate input of a run, like the configuration
+TraceOf(c, s) == <<c, s, plugged, IF UsesGlobal THEN g ELSE 0, IF UsesHistory THEN ran ELSE 0>>
+PertOf(c, s) == <<s, plugged, IF UsesGlobal THEN g ELSE 0>>
 
-Init == g = 0 /\ ran = 0 /\ reuse = FALSE /\ hist = <<>> /\ runs = <<>>
-Reseed(s)  == g' = s /\ hist' = Append(hist, [op |-> "reseed", a |-> s, b |-> 0]) /\ UNCHANGED <<ran, reuse, runs>>
-Draw       == g' = (g + 1) % 4 /\ hist' = Append(hist, [op |-> "draw", a |-> 0, b |-> 0]) /\ UNCHANGED <<ran, reuse, runs>>
+Init == g = 0 /\ ran = 0 /\ reuse = FALSE /\ hist = <<>> /\ runs = <<>> /\ plugged = FALSE
+Reseed(s)  == g' = s /\ hist' = Append(hist, [op |-> "reseed", a |-> s, b |-> 0]) /\ UNCHANGED <<ran, reuse, runs, plugged>>
+Draw       == g' = (g + 1) % 4 /\ hist' = Append(hist, [op |-> "draw", a |-> 0, b |-> 0]) /\ UNCHANGED <<ran, reuse, runs, plugged>>
 Other(c)   == ran' = ran + 1 /\ g' = (g + c) % 4      \* another optimization runs (and may use the global generator itself)
-              /\ hist' = Append(hist, [op |-> "other", a |-> c, b |-> 0]) /\ UNCHANGED <<reuse, runs>>
-Toggle     == reuse' = ~reuse /\ hist' = Append(hist, [op |-> "reuse", a |-> 0, b |-> 0]) /\ UNCHANGED <<g, ran, runs>>
-Target(c, s) == /\ runs' = Append(runs, [cfg |-> c, seed |-> s, trace |-> TraceOf(c, s), pert |-> PertOf(c, s)])
+              /\ hist' = Append(hist, [op |-> "other", a |-> c, b |-> 0]) /\ UNCHANGED <<reuse, runs, plugged>>
+Toggle     == reuse' = ~reuse /\ hist' = Append(hist, [op |-> "reuse", a |-> 0, b |-> 0]) /\ UNCHANGED <<g, ran, runs, plugged>>
+Plug       == ~plugged /\ plugged' = TRUE /\ hist' = Append(hist, [op |-> "plug", a |-> 0, b |-> 0]) /\ UNCHANGED <<g, ran, reuse, runs>>
+Target(c, s) == /\ runs' = Append(runs, [cfg |-> c, seed |-> s, plug |-> plugged, trace |-> TraceOf(c, s), pert |-> PertOf(c, s)])
                 /\ ran' = ran + 1
-                /\ hist' = Append(hist, [op |-> "target", a |-> c, b |-> s]) /\ UNCHANGED <<g, reuse>>
+                /\ hist' = Append(hist, [op |-> "target", a |-> c, b |-> s]) /\ UNCHANGED <<g, reuse, plugged>>
 Next == /\ Len(hist) < L
         /\ \/ \E s \in Seeds : Reseed(s)
            \/ Draw
            \/ \E c \in Cfgs : Other(c)
            \/ Toggle
+           \/ Plug
            \/ \E c \in Cfgs, s \in Seeds : Target(c, s)
 
-Reproducible == \A i, j \in 1..Len(runs) : (runs[i].cfg = runs[j].cfg /\ runs[i].seed = runs[j].seed) => runs[i].trace = runs[j].trace
-SeedMatters  == \A i, j \in 1..Len(runs) : (runs[i].cfg = runs[j].cfg /\ runs[i].seed # runs[j].seed) => runs[i].pert # runs[j].pert
+Reproducible == \A i, j \in 1..Len(runs) : (runs[i].cfg = runs[j].cfg /\ runs[i].seed = runs[j].seed /\ runs[i].plug = runs[j].plug) => runs[i].trace = runs[j].trace
+SeedMatters  == \A i, j \in 1..Len(runs) : (runs[i].cfg = runs[j].cfg /\ runs[i].seed # runs[j].seed /\ runs[i].plug = runs[j].plug) => runs[i].pert # runs[j].pert
 =============================================================================
